@@ -6,8 +6,8 @@
   Quantifier: all pairs of leader and follower cache states (any `Leader`, any
   well-formed follower `Store`: empty, prefix, equal, ahead, other id, position already
   collected at the leader are all instances), snapshot and log transfers of any chunking
-  (`ch : List Nat`), interruption at any message (`cut : Nat`, with any number `lost` of
-  received-but-unwritten bytes dropped), any number of metaSync rounds (`fuel`), and any
+  (`ch : List Nat`), interruption at any message (`cut : Nat`, with any `lost : Loss`:
+  received-but-unwritten bytes dropped, a failing file write after any number of bytes), any number of metaSync rounds (`fuel`), and any
   sequence of such sessions against changing leaders.
 
   "Faithful" is relative to an arbitrary history `h : Hist β` (for every run id a byte at
@@ -25,8 +25,12 @@
   follower that meets a leader whose input has already moved on gets CLEAR and deletes
   (`clear_deletes_any`).
 
-  Undischarged hypothesis of the session theorems: `hq : (V 0).l2b.cur ≠ "?"` — the leader's
-  channel run id is never the literal "?" (listed in the check's assumptions).
+  Hypothesis `hq : (V 0).l2b.cur ≠ "?"` of the session theorems (the leader's channel run id is
+  never the literal "?") is discharged in Props/C16Id.lean (`follower_prefix_of_leader_src`:
+  disk leader unconditionally, memory leader unless the source itself reports "?").
+  `lost : Loss` carries, besides the bytes lost in the pipe, a write fault / failing commit of
+  the follower's own store (Props/C16Fault.lean); open readers: Props/C16Reader.lean; restart
+  from a crash image: Props/C16Restart.lean; promotion (C06's CacheOK): Props/C16Promote.lean.
   "Is offered leadership": follower side `ahead_gets_handover`, leader side
   `handover_leader_steps_down` (Sync stops the syncer); what runCluster does afterwards is
   outside the model (the check's `partial`).
@@ -47,7 +51,7 @@ open GunYu GunYu.Replica
     messages, with ANY chunking, the same holds — for every id separately, so bytes never
     move from one id to another — and the store stays well formed. -/
 theorem follower_prefix_of_leader {β : Type} (h : Hist β) (bk : Backend) (V : Nat → View β)
-    (F : Store β) (ch : List Nat) (cut lost fuel : Nat)
+    (F : Store β) (ch : List Nat) (cut : Nat) (lost : Loss) (fuel : Nat)
     (hL : ∀ n, (V n).l4.Faithful h) (hq : (V 0).l2b.cur ≠ "?") (hwf : WF bk F) (id : Id)
     (hF : FaithfulAt h F.dirs id) :
     FaithfulAt h (sessionV bk V F ch cut lost fuel).store.dirs id ∧
@@ -55,14 +59,14 @@ theorem follower_prefix_of_leader {β : Type} (h : Hist β) (bk : Backend) (V : 
   (session_ok bk V F ch cut lost fuel id hL hq hwf hF).symm
 
 /-- one follower session as a state transformer -/
-def run {β : Type} (bk : Backend) (F : Store β) (r : (Nat → View β) × List Nat × Nat × Nat × Nat) :
+def run {β : Type} (bk : Backend) (F : Store β) (r : (Nat → View β) × List Nat × Nat × Loss × Nat) :
     Store β :=
   (sessionV bk r.1 F r.2.1 r.2.2.1 r.2.2.2.1 r.2.2.2.2).store
 
 /-- what can happen to a follower's cache between two looks at it -/
 inductive Step (β : Type)
   /-- one pass of `ReplicaFollower.Run` (handshake … first error), any leader, any cut -/
-  | sess (r : (Nat → View β) × List Nat × Nat × Nat × Nat)
+  | sess (r : (Nat → View β) × List Nat × Nat × Loss × Nat)
   /-- (disk) the process restarts: the storer forgets its current id, directories stay -/
   | restart
   /-- the follower was leader for a while: its own input appended to the current id -/
@@ -171,7 +175,7 @@ theorem faithful_bytes {β : Type} (h : Hist β) (id : Id) (d : Data β) (hd : d
     sentinel outcome `discont`, which stands for overlapping / disjoint segments on disk
     and for the memory backend's refusal, is unreachable. -/
 theorem follower_contiguous {β : Type} (bk : Backend) (V : Nat → View β) (F : Store β)
-    (ch : List Nat) (cut lost fuel : Nat) (hq : (V 0).l2b.cur ≠ "?") (hwf : WF bk F) :
+    (ch : List Nat) (cut : Nat) (lost : Loss) (fuel : Nat) (hq : (V 0).l2b.cur ≠ "?") (hwf : WF bk F) :
     (sessionV bk V F ch cut lost fuel).cls ≠ .discont :=
   session_nodiscont bk V F ch cut lost fuel hq hwf
 
@@ -240,7 +244,7 @@ theorem unjoinable_discards {β : Type} (bk : Backend) (F : Store β) (x y : Id)
     is, unchanged, a directory it had before: a session never creates, fills or relabels a
     directory of another id. -/
 theorem others_untouched {β : Type} (bk : Backend) (V : Nat → View β) (F : Store β)
-    (ch : List Nat) (cut lost fuel : Nat) (hq : (V 0).l2b.cur ≠ "?") (hwf : WF bk F) :
+    (ch : List Nat) (cut : Nat) (lost : Loss) (fuel : Nat) (hq : (V 0).l2b.cur ≠ "?") (hwf : WF bk F) :
     ∀ p ∈ (sessionV bk V F ch cut lost fuel).store.dirs, p.1 = (V 0).l2b.cur ∨ p ∈ F.dirs :=
   session_ksub bk V F ch cut lost fuel hq hwf
 
@@ -252,7 +256,7 @@ theorem others_untouched {β : Type} (bk : Backend) (V : Nat → View β) (F : S
     stays on disk, unchanged and under its own id — `others_untouched` — it is merely no
     longer current.) -/
 theorem unjoinable_discards_session {β : Type} (bk : Backend) (L : Leader β) (F : Store β)
-    (ch : List Nat) (c lost fuel : Nat) (x y : Id) (hs : Serves L x)
+    (ch : List Nat) (c : Nat) (lost : Loss) (fuel : Nat) (x y : Id) (hs : Serves L x)
     (hx1 : x ≠ "") (hx2 : x ≠ "?") (hy : y = F.cur) (hy0 : y ≠ "") (hyx : y ≠ x)
     (hwf : WF bk F) (hnox : getD F.dirs x = none) :
     getD (session bk L F ch (c + 1) lost fuel).store.dirs y = none := by
@@ -294,7 +298,7 @@ theorem gap_discards {β : Type} (bk : Backend) (F : Store β) (x : Id) (e : Dat
     for `x` afterwards starts at the leader's newest offset: the old part, which could not
     be joined, is gone, and no snapshot is kept. -/
 theorem collected_discards {β : Type} (bk : Backend) (L : Leader β) (F : Store β)
-    (ch : List Nat) (c lost f : Nat) (x : Id) (d e : Data β) (hs : Serves L x)
+    (ch : List Nat) (c : Nat) (lost : Loss) (f : Nat) (x : Id) (d e : Data β) (hs : Serves L x)
     (hx1 : x ≠ "") (hx2 : x ≠ "?") (hd : L.data = some d) (hsn : d.snap = none)
     (hw : L.hasSegs d = true) (hwf : WF bk F) (hF : F.get x = some (some e))
     (hm : bk = .mem → F.cur = x) (hgap : e.right < d.base) :
@@ -341,7 +345,7 @@ theorem collected_discards {β : Type} (bk : Backend) (L : Leader β) (F : Store
     and no writer is open, so `NewReader` fails). The follower deletes the run id and ends
     the attempt: nothing is left under `x`, no snapshot is invented. -/
 theorem clear_deletes {β : Type} (bk : Backend) (L : Leader β) (F : Store β)
-    (ch : List Nat) (c lost f : Nat) (x : Id) (hs : Serves L x)
+    (ch : List Nat) (c : Nat) (lost : Loss) (f : Nat) (x : Id) (hs : Serves L x)
     (hx1 : x ≠ "") (hx2 : x ≠ "?") (hd : L.data = none) (hwf : WF bk F)
     (hnot : ∀ e, F.get x = some (some e) → False) :
     (session bk L F ch (c + 2) lost (f + 1)).cls = .clear ∧
@@ -377,7 +381,7 @@ theorem clear_deletes {β : Type} (bk : Backend) (L : Leader β) (F : Store β)
     attempt: `HANDOVER` is not offered in this situation (the ahead test comes after the
     self inspection), nothing is left under `x`, no snapshot is invented. -/
 theorem clear_deletes_any {β : Type} (bk : Backend) (V : Nat → View β) (F : Store β)
-    (ch : List Nat) (c lost f : Nat) (x : Id) (h0 : Serves (V 0).l1 x) (h01 : (V 0).l1b.cur = x)
+    (ch : List Nat) (c : Nat) (lost : Loss) (f : Nat) (x : Id) (h0 : Serves (V 0).l1 x) (h01 : (V 0).l1b.cur = x)
     (h02 : (V 0).l2b.cur = x)
     (hx1 : x ≠ "") (hx2 : x ≠ "?") (h1g : (V 1).l1.serving = true) (h1s : (V 1).l1.started = true)
     (i0 : Id) (tl : List Id) (h1i : (V 1).l1.inputIds = i0 :: tl) (h1c : i0 ≠ (V 1).l1b.cur)
@@ -415,7 +419,7 @@ theorem clear_deletes_any {β : Type} (bk : Backend) (V : Nat → View β) (F : 
 
 /-- a session cut right after the handshake leaves exactly what `preSync` decided -/
 theorem session_cut_after_handshake {β : Type} (bk : Backend) (L : Leader β) (F : Store β)
-    (ch : List Nat) (lost fuel : Nat) (x : Id) (hs : Serves L x) (hx1 : x ≠ "") :
+    (ch : List Nat) (lost : Loss) (fuel : Nat) (x : Id) (hs : Serves L x) (hx1 : x ≠ "") :
     (session bk L F ch 1 lost (fuel + 1)).store = (preSync bk F x (latest L.data)).1 := by
   rw [session_static hs hx1, Out.pre_store]
   unfold syncLoopV
@@ -424,7 +428,7 @@ theorem session_cut_after_handshake {β : Type} (bk : Backend) (L : Leader β) (
 /-- **gap_discards**, session level: same run id, the leader more than 10 MiB ahead. Already
     when only the handshake has been delivered the follower's copy is gone. -/
 theorem gap_discards_session {β : Type} (bk : Backend) (L : Leader β) (F : Store β) (ch : List Nat)
-    (lost fuel : Nat) (x : Id) (e : Data β) (hs : Serves L x) (hx1 : x ≠ "") (hx2 : x ≠ "?")
+    (lost : Loss) (fuel : Nat) (x : Id) (e : Data β) (hs : Serves L x) (hx1 : x ≠ "") (hx2 : x ≠ "?")
     (hwf : WF bk F) (hF : F.get x = some (some e)) (hm : bk = .mem → F.cur = x)
     (hgap : latest L.data - (e.right : Int) > tenMB) :
     (session bk L F ch 1 lost (fuel + 1)).store.curData = none ∧
@@ -527,7 +531,7 @@ theorem resynchronises_keeps_copy {β : Type} (bk : Backend) (L : Leader β) (F 
   simp only [List.length_append, List.length_drop] at hlen
   have ha := aofLoop_conts_all c (e.right : Int) cs (by omega)
   unfold aofRecv
-  simp only [ha.1, Nat.sub_zero, List.take_length]
+  simp only [ha.1, Loss.zero_pipe, Loss.written_zero, Nat.sub_zero, List.take_length]
   unfold aofWrite
   simp only [hcd, if_true, setCur_curData]
   refine ⟨_, rfl, rfl, rfl, ?_, ?_⟩
@@ -550,7 +554,7 @@ theorem relabel_faithful_iff_join {β : Type} (h : Hist β) (old new : Id) (d : 
     second message of the session is `HANDOVER`, the follower reports "take over
     leadership" and its cache is untouched. -/
 theorem ahead_gets_handover {β : Type} (bk : Backend) (L : Leader β) (F : Store β)
-    (ch : List Nat) (cut lost fuel : Nat) (x : Id) (tl : List Id) (d : Data β)
+    (ch : List Nat) (cut : Nat) (lost : Loss) (fuel : Nat) (x : Id) (tl : List Id) (d : Data β)
     (hg : L.serving = true) (hs : L.started = true) (hi : L.inputIds = x :: tl) (hc : L.cur = x)
     (hx1 : x ≠ "") (hx2 : x ≠ "?") (hwf : WF bk F)
     (hF : F.get x = some (some d)) (hm : bk = .mem → F.cur = x)
@@ -655,15 +659,15 @@ example : (session .mem lEx fPrefix [1, 2] 4 2 3).store.dirs = [("idA", some ⟨
 example : (sessionV .disk (fun n => if n = 1 then ⟨lEx, lEx, lEx, lEx, { lEx with cur := "idB", inputIds := ["idB"], data := some ⟨20, [], some [520]⟩ },
       { lEx with cur := "idB", inputIds := ["idB"], data := some ⟨20, [], some [520]⟩ }⟩ else View.const lEx) ⟨"", []⟩ [] 10 0 3).cls = .error := by decide
 -- the leader is stopped after one chunk of the stream: clean end of stream, or FAULT — a prefix either way
-example : (session .disk { lEx with halt := some (1, false) } fPrefix [1, 1, 1] 10 0 3).store.dirs
+example : (session .disk { lEx with halt := some (1, .clean) } fPrefix [1, 1, 1] 10 0 3).store.dirs
     = [("idA", some ⟨9, [9, 10, 11, 12], none⟩)] ∧
-    (session .disk { lEx with halt := some (1, false) } fPrefix [1, 1, 1] 10 0 3).cls = .eof := by decide
-example : (session .mem { lEx with halt := some (2, true) } fPrefix [1, 1, 1] 10 0 3).store.dirs
+    (session .disk { lEx with halt := some (1, .clean) } fPrefix [1, 1, 1] 10 0 3).cls = .eof := by decide
+example : (session .mem { lEx with halt := some (2, .fault) } fPrefix [1, 1, 1] 10 0 3).store.dirs
     = [("idA", some ⟨9, [9, 10, 11, 12, 13], none⟩)] ∧
-    (session .mem { lEx with halt := some (2, true) } fPrefix [1, 1, 1] 10 0 3).cls = .fault := by decide
+    (session .mem { lEx with halt := some (2, .fault) } fPrefix [1, 1, 1] 10 0 3).cls = .fault := by decide
 -- … stopped in the middle of the snapshot: nothing is kept
-example : (session .disk { lEx with halt := some (1, false) } fOld [1] 10 0 3).store.dirs = [("idA", none)] ∧
-    (session .disk { lEx with halt := some (1, false) } fOld [1] 10 0 3).cls = .eof := by decide
+example : (session .disk { lEx with halt := some (1, .clean) } fOld [1] 10 0 3).store.dirs = [("idA", none)] ∧
+    (session .disk { lEx with halt := some (1, .clean) } fOld [1] 10 0 3).cls = .eof := by decide
 -- "caught up" may mean holding nothing: another id is discarded, the leader has nothing new
 example : AtLeaderTip lEx ⟨10, [10, 11, 12, 13, 14], some [10, 10]⟩ (session .disk lEx fOther [] 20 0 3) ∧
     (session .disk lEx fOther [] 20 0 3).store.curData = none := by
